@@ -58,6 +58,18 @@ def run(run, args):
                "%d histories, %d pool requests differ" % (len(res[0]), len(res[3])))
     run.oblige("generator = stateless function after every call of every history and thread", not res[1],
                "%d histories differ beyond 1e-12 (%d not bit for bit)" % (len(res[1]), len(res[2])))
+    # concurrency: what each of the 16 threads got (from its generator and from the stateless function) must be what the
+    # single-threaded stateless function returned for the same pooled request before the threads started
+    single = poolrec["stateless"]
+    thread_diff = [(h["id"], j) for h in hists if h["kind"] == "thread" for j, (i, o) in enumerate(zip(h["h"], h["outs"])) if o != single[i]]
+    stress = [(h["id"], h.get("stress_first")) for h in hists if h["kind"] == "thread" and h.get("stress_mismatches", 0) > 0]
+    run.cov["thread_stress"] = {"rounds_per_thread": max([h.get("stress_rounds", 0) for h in hists if h["kind"] == "thread"] or [0]), "threads": 16,
+                                "rule": "two default-count requests of very different mass alternate out of phase across 16 threads; each answer is compared with the single-threaded one",
+                                "mismatching_threads": len(stress)}
+    run.oblige("16-thread stress: every answer equals the single-threaded one", not stress, "%d threads saw a wrong answer" % len(stress))
+    run.cov["thread_vs_single_threaded_differences"] = len(thread_diff)
+    run.oblige("every pattern returned inside the 16 concurrent threads equals the single-threaded stateless result (bit for bit)", not thread_diff,
+               "%d differ" % len(thread_diff))
     hits = scan_shared_state()
     run.oblige("no interior mutability / unsafe shared state in the anchored files", not hits, "; ".join(hits[:4]))
     broken = standard_proof_obligations(run, "C08", THEOREMS) if THEOREMS else []
@@ -66,6 +78,16 @@ def run(run, args):
         violation(run, {"failing_input": {"history_of_pool_indices": h["h"], "kind": h["kind"], "pool": [{k: r[k] for k in ("ents", "req", "charge", "carrier")} for r in pool],
                                           "generator_outputs": h["outs"], "stateless_outputs": poolrec["stateless"]},
                         "what": "after this call history the generator returns peaks that differ from the stateless function's", "all_failing": res[1][:40]})
+    if stress:
+        violation(run, {"failing_input": {"thread": by_id[stress[0][0]].get("thread"), "first_wrong_answer": stress[0][1], "schedule": "16 threads alternating H2O / C1274H1965N335O377S9 default requests"},
+                        "what": "under concurrent use the stateless function returned a pattern that differs from its single-threaded answer", "threads": [x[0] for x in stress]})
+    if thread_diff:
+        hid, j = thread_diff[0]
+        h = by_id[hid]
+        violation(run, {"failing_input": {"thread": h.get("thread"), "call_index": j, "pool_request": {k: pool[h["h"][j]][k] for k in ("ents", "req", "charge", "carrier")},
+                                          "returned_in_thread": h["outs"][j], "single_threaded": single[h["h"][j]]},
+                        "what": "a pattern computed while 16 threads were running differs from the single-threaded result for the same request",
+                        "all": thread_diff[:20]})
     if errors:
         violation(run, {"broken": "case file does not evaluate", "detail": errors[0][1]}, nofail=True)
     if hits:
